@@ -4,17 +4,21 @@ import pipeline
 import talgen
 
 PID = 'C08'
-PROOF_MODULES = ['ChamProofs.Props.C08', 'ChamProofs.Props.C05Eval']
+PROOF_MODULES = ['ChamProofs.Props.C08', 'ChamProofs.Props.C05Eval', 'ChamProofs.Props.C08Sep', 'ChamProofs.Props.C01Spec']
 THEOREMS = ['ChamVerif.C08_romanTable_tie', 'ChamVerif.C08_roman_value', 'ChamVerif.C08_roman_text',
             'ChamVerif.C08_roman_canonical_lt_4000', 'ChamVerif.C08_letter', 'ChamVerif.C08_index', 'ChamVerif.C08_attrs',
-            'ChamVerif.C08_empty_renders_nothing', 'ChamVerif.C05_repeat_restores']
+            'ChamVerif.C08_empty_renders_nothing', 'ChamVerif.C05_repeat_restores', 'ChamVerif.loop_step', 'ChamVerif.C08_separator',
+            'ChamVerif.refF_loop']
 LEVEL_TEXT = ('Proved in Lean for every position and every length: index = i, number = i + 1, length, start, end at iteration i '
               '(C08_index, C08_attrs); letter/Letter is the base-26 positional spelling of the index with at least one digit '
               '(C08_letter, induction over the divmod loop); the roman numerals emitted are exactly the greedy decomposition over the table '
               'read from RepeatItem.Roman today and denote index + 1 for every n (C08_romanTable_tie, C08_roman_value, C08_roman_text), '
               'canonical below 4000 (kernel evaluation over the complete range). On the interpreter: a repeat over None or an empty sequence '
               'renders nothing and does not evaluate its body (C08_empty_renders_nothing), and after any number of iterations the loop variable is '
-              'bound to what it was bound to before (C05_repeat_restores, whole-interpreter). Iteration of non-empty sequences, unpacking, one-shot iterators, nesting and the '
+              'bound to what it was bound to before (C05_repeat_restores, whole-interpreter). The separator: on the loop of the statement semantics, '
+              'which the interpreter\'s evalRepeat refines for every fuel (refF_loop), a body that emits d extends the output by d ws d ... ws d for '
+              'every number of items - ws between two repetitions, nothing after the last, nothing for none (C08_separator, induction over the '
+              'items with loop_step). Iteration of non-empty sequences, unpacking, one-shot iterators, nesting and the '
               'line-break separator are modelled by the node interpreter, tied to the code by component and end-to-end correspondence, '
               'and judged by an independent constructive oracle.')
 LEVEL_NOTE = ('Trusted: Lean kernel; that RepeatItem.index equals consumed - 1 for the shared list iterator (length_hint), validated by the '
@@ -309,6 +313,23 @@ def oracle(ctx):
         if got != exp:
             ctx.violation('repeat output differs (items, repeat variables or separator)', {'src': src, 'iterable': kind, 'length': n},
                           expected=exp, actual=got)
+    # the iterable expression may mention the loop's own variable: it is evaluated in the scope *outside* the loop
+    from chameleon import PageTemplate
+    SELF = [('<tal:r repeat="row rows"><tal:c repeat="row row">${row},</tal:c>;</tal:r>[${row | \'U\'}]', {'rows': [[1, 2], [3]]}, '1,2,;3,;[U]'),
+            ('<tal:r repeat="items items">${items}.</tal:r>[${items}]', {'items': [1, 2]}, '1.2.[[1, 2]]'),
+            ('<tal:r repeat="(k, v) sorted(k.items())">${k}=${v};</tal:r>[${sorted(k)}]', {'k': {'a': 1, 'b': 2}}, "a=1;b=2;[['a', 'b']]"),
+            ('<tal:r repeat="x reversed(x)">${x}</tal:r>', {'x': [1, 2, 3]}, '321'),
+            ('<tal:r repeat="global g g">${g}</tal:r>(${g})', {'g': 'ab'}, 'ab(b)')]
+    for src, kw, want in SELF:
+        ctx.count('evaluations')
+        nt += 1
+        try:
+            got = PageTemplate(src)(**kw)
+        except Exception as e:
+            got = {'exc': type(e).__name__, 'msg': str(e).split('\n')[0][:100]}
+        if got != want:
+            ctx.violation('a tal:repeat whose iterable expression mentions its own loop variable must iterate the outer value',
+                          {'src': src, 'kwargs': repr(kw)}, expected=want, actual=got)
     ctx.counters['nontrivial'] = nt + 12 * 61
     ctx.sample({'template': cases[0][0], 'iterable': cases[0][1], 'length': cases[0][2], 'expected': cases[0][3]})
 
